@@ -10,7 +10,10 @@ Line protocol of the dispatch model (C11):
   blk <i> input <initdef or u> <allowed: - or val,val,…>
   blk <i> counter <modulo or n> <initdef>
   blk <i> fsm <nStates> <trans: - or ev:from|*:to|-,…> <enter scripts joined by |> <exit scripts> <timed: - or etype@dur, by state joined by |>
+  cond <i> <event> <script> <c0 | c1 | k<key>>  cond_EVENT callback of FSM i: statements, then the value returned
   blk <i> outfunc <v | f | c<val>>            user function: returns its argument / raises / constant
+  blk <i> repeat <dest> <etype> <count or n>  edzed.Repeat(dest=, etype=, count=)
+  resend <d> <rep>                            the main task of Repeat d sends repetition number <rep>
   edge <src> <o|e|x|s|r|nt|en<state>|ex<state>> <dest> <etype> <filters: - or a,r,v,w,d,u,s<val>>
   etype: prefix notation, tokens joined by `/`: 0 | e | x | n:<name> | g<state> | c/<etype>/<etype>
   tick <d>                                    the timer of FSM d fires;   stop   the simulation task has ended
@@ -195,6 +198,45 @@ def handle (s : DState) : List String → DState × String
       match setBlk s.circ i (fun x => { x with kind := .outfunc, func := fs }) with
       | some c => ({ s with circ := c }, "ok")
       | Option.none => (s, "bad-op")
+    | _, _ => (s, "bad-op")
+  | ["cond", i, ev, scr, cv] =>
+    let cv? : Option CondVal := match cv.toList with
+      | ['c', '0'] => some (.const false)
+      | ['c', '1'] => some (.const true)
+      | 'k' :: r => if r.isEmpty then Option.none else some (.item (String.ofList r))
+      | _ => Option.none
+    match i.toNat?, parseScript scr, cv? with
+    | some i, some acts, some cv =>
+      if ev.isEmpty then (s, "bad-op") else
+      match s.circ.blocks[i]? with
+      | some b =>
+        if b.kind = .fsm && !b.conds.any (·.1 == ev) then
+          match setBlk s.circ i (fun x => { x with conds := x.conds ++ [(ev, acts, cv)] }) with
+          | some c => ({ s with circ := c }, "ok")
+          | Option.none => (s, "bad-op")
+        else (s, "bad-op")
+      | Option.none => (s, "bad-op")
+    | _, _, _ => (s, "bad-op")
+  | ["blk", i, "repeat", dest, et, cnt] =>
+    let cnt? : Option (Option Nat) := if cnt == "n" then some Option.none else cnt.toNat?.map some
+    match i.toNat?, dest.toNat?, parseET et, cnt? with
+    | some i, some dest, some et, some cnt =>
+      if dest < s.circ.n then
+        match setBlk s.circ i (fun x => { x with kind := .repeat, rdest := dest, retype := et, rcount := cnt }) with
+        | some c => ({ s with circ := c }, "ok")
+        | Option.none => (s, "bad-op")
+      else (s, "bad-op")
+    | _, _, _, _ => (s, "bad-op")
+  | ["resend", d, rep] =>
+    match d.toNat?, rep.toNat? with
+    | some d, some rep =>
+      match s.st.rcur d with
+      | some (_, r) =>
+        if r + 1 ≠ rep then (s, "bad-rep") else
+        match resend s.circ { s.st with trace := [] } d with
+        | some p => ({ s with st := p.1 }, reply s.circ p)
+        | Option.none => (s, "not-repeating")
+      | Option.none => (s, "not-repeating")
     | _, _ => (s, "bad-op")
   | ["blk", i, "fsm", n, tr, en, ex, tm] =>
     let parseTrans (x : String) : Option (String × Option Nat × Option Nat) :=
